@@ -34,6 +34,26 @@ class Roles:
                                     for x in ds) and any(not isinstance(x.value, ast.Constant) for x in ds)
         return False
 
+    def _select(self, v: ast.AST, nid: int, k: int, depth: int = 0):
+        """element k of the tuple / list display that `v` stands for -> [(element, node)]"""
+        if isinstance(v, (ast.Tuple, ast.List)):
+            if k < len(v.elts) and not any(isinstance(x, ast.Starred) for x in v.elts):
+                return [(v.elts[k], nid)]
+            return None
+        if isinstance(v, ast.Name) and depth < 3:
+            out = []
+            for df in self.du.reaching(nid, v.id):
+                if df.value is None or df.sel:
+                    return None
+                if isinstance(df.value, ast.Constant) and df.value.value is None:
+                    continue
+                got = self._select(df.value, df.node, k, depth + 1)
+                if not got:
+                    return None
+                out += got
+            return out
+        return None
+
     def role(self, e: ast.AST, nid: int, depth: int = 0) -> FrozenSet[str]:
         if depth > 8 or e is None:
             return frozenset()
@@ -49,6 +69,13 @@ class Roles:
             for df in self.du.reaching(nid, e.id):
                 if df.value is None:
                     continue
+                if df.sel and df.sel[0][0] == "idx" and len(df.sel) == 1:
+                    # unpacking a tuple display (possibly held in a local): the element's role
+                    picked = self._select(df.value, df.node, df.sel[0][1])
+                    if picked:
+                        for (elt, at) in picked:
+                            out |= self.role(elt, at, depth + 1)
+                        continue
                 if df.sel and df.sel[0][0] == "idx" and self.is_pair(df.value, df.node):
                     out.add(NORTH if df.sel[0][1] == 0 else WEST)
                     continue
